@@ -29,6 +29,8 @@ def run(rep, tier):
                        "AST def-use of replace()")
     rep.rule("R1", "codeType2Portable on host H builds the class for H and every co_* attribute is the native object's same-named attribute (line table: co_linetable on 3.10+)")
     rep.rule("R2", "to_native passes the fields in host H's types.CodeType positional order and is enabled exactly on the hosts whose selector picks the class")
+    rep.rule("R5", "no function of xdis.codetype reachable from the public operations writes module-level, class-level or default-argument state or memoises a mutable result "
+                   "(C18's rules R1 and R3, restated for this package): a conversion result does not depend on earlier conversions")
     rep.rule("R4", "freeze() (run by to_native on its copy) never returns early on a flag it assigns itself and never rewrites an integer-valued field (co_flags, counts, first line)")
     rep.rule("R3", "replace() copies with deepcopy(self), sets fields on the copy only, returns the copy")
     ref = ref_json("codetype.json")["hosts"]
@@ -146,23 +148,52 @@ def run(rep, tier):
             continue
         nrep += 1
         rep.analysed(q)
-        copyvar = None
-        for n in ast.walk(fn):
-            if isinstance(n, ast.Assign) and isinstance(n.value, ast.Call) and ast.unparse(n.value.func).split(".")[-1] == "deepcopy" and \
-                    len(n.value.args) == 1 and ast.unparse(n.value.args[0]) == "self" and isinstance(n.targets[0], ast.Name):
-                copyvar = n.targets[0].id
-        rep.ob("R3", q, "copy-is-deepcopy(self)", copyvar is not None, expected="<copy> = deepcopy(self)", derived=copyvar)
-        sets = [n for n in ast.walk(fn) if isinstance(n, ast.Call) and isinstance(n.func, ast.Name) and n.func.id == "setattr"]
-        bad = [ast.unparse(n) for n in sets if not (n.args and isinstance(n.args[0], ast.Name) and n.args[0].id == copyvar)]
-        selfstores = [ast.unparse(n) for n in ast.walk(fn) if isinstance(n, (ast.Attribute, ast.Subscript)) and isinstance(n.ctx, (ast.Store, ast.Del)) and
-                      ast.unparse(n).startswith("self")]
-        rep.ob("R3", q, "mutates-only-the-copy", bool(sets) and not bad and not selfstores, expected="setattr(<copy>, field, value) only", derived=bad + selfstores or len(sets),
+        # decided on the specialised method: replace(co_name=N1, co_consts=[K1]) of an object with symbolic fields returns a *different* object of the same class with
+        # exactly those two fields changed, leaves every field of the original as it was (containers included), and an unknown field raises TypeError
+        modq, cq_ = q.rsplit(".", 2)[0], q.rsplit(".", 2)[1]
+        Cr = F.load(modq).ns.get(cq_)
+        fr = Cr.lookup("replace") if isinstance(Cr, ClassRef) else None
+        if not isinstance(fr, FuncRef):
+            raise AnalysisError("anchor vanished: %s" % q)
+        me_r = Instance(Cr)
+        consts0 = [Sym("c0")]
+        fields0 = dict(co_name=Sym("N0"), co_flags=Sym("FL"), co_code=Sym("code0"), co_consts=consts0, co_firstlineno=Sym("L0"))
+        me_r.attrs.update(fields0)
+        try:
+            out_r = Spec(F).run(fr, [me_r], {"co_name": Sym("N1"), "co_consts": [Sym("K1")]})
+            rets_r = [l.value for g, l in leaves(out_r) if isinstance(l, Ret)]
+            other = [type(l).__name__ for g, l in leaves(out_r) if not isinstance(l, Ret)]
+        except Exception as ex:
+            rets_r, other = [], ["not evaluable: %s" % ex]
+        new_r = rets_r[0] if len(rets_r) == 1 and not other else None
+        is_copy = isinstance(new_r, Instance) and new_r is not me_r and new_r.cls is Cr
+        rep.ob("R3", q, "copy-is-deepcopy(self)", is_copy, expected="a new object of the same class", derived=show(new_r) if new_r is not None else other[:2] or len(rets_r),
+               msg="replace() does not return a new object of the same class")
+        orig_ok = all(me_r.attrs.get(k_) is v_ for k_, v_ in fields0.items()) and set(me_r.attrs) == set(fields0) and consts0 == [consts0[0]] and len(consts0) == 1
+        rep.ob("R3", q, "mutates-only-the-copy", is_copy and orig_ok, expected="every field of the original unchanged", derived={k_: show(v_)[:30] for k_, v_ in me_r.attrs.items() if fields0.get(k_) is not v_} or "unchanged",
                msg="replace() must not alter the original")
-        rets = [ast.unparse(n.value) for n in ast.walk(fn) if isinstance(n, ast.Return) and n.value is not None]
-        rep.ob("R3", q, "returns-the-copy", rets == [copyvar], expected=copyvar, derived=rets)
+        want_new = dict(fields0, co_name="N1", co_consts="[K1]")
+        got_new = {k_: show(v_) for k_, v_ in (new_r.attrs.items() if isinstance(new_r, Instance) else [])}
+        changed_ok = is_copy and got_new.get("co_name") == "N1" and got_new.get("co_consts") == "[K1]" and all(got_new.get(k_) == show(fields0[k_]) for k_ in ("co_flags", "co_code", "co_firstlineno")) \
+            and (new_r.attrs.get("co_consts") is not consts0)
+        rep.ob("R3", q, "returns-the-copy", changed_ok, expected="the copy with co_name and co_consts replaced and the other fields kept", derived=got_new or None,
+               msg="replace(**fields) does not return a copy with exactly those fields changed")
+        try:
+            out_b = Spec(F).run(fr, [me_r], {"co_no_such_field": Sym("X")})
+            kinds_b = sorted({(show(l.exc) if isinstance(l, Raise) else type(l).__name__) for g, l in leaves(out_b)})
+        except Exception as ex:
+            kinds_b = ["not evaluable: %s" % ex]
+        rep.ob("R3", q, "unknown-field-raises", kinds_b == ["exc('TypeError')"], expected="TypeError", derived=kinds_b,
+               msg="replace() with a field the object does not have does not raise TypeError")
     rep.floor("replace() implementations", nrep, 1)
     # ---------------------------------------------------------------- R4 freeze(), which to_native() runs on its copy, is a pure normalisation
     from .c19 import freeze_discipline
     freeze_discipline(rep, repo, "R4")
+    # ---------------------------------------------------------------- R5 the conversion keeps nothing from one call to the next (C18's audit, restricted to xdis.codetype)
+    from ..report import SubReport, merge_sub
+    from . import c18
+    sub18 = SubReport("C18", tier=tier)
+    c18.run(sub18, tier)
+    merge_sub(rep, sub18, "R5", "C18", only_rules=("R1", "R3"), only_constructs=lambda c_: c_.startswith("xdis.codetype."))
     rep.assumptions = ["reference/codetype.json (types.CodeType signature and native attribute availability per host 3.8-3.13)",
                        "equality of the rebuilt native object is not evaluated; freeze()/check() are treated as identity on already-frozen fields"]
